@@ -156,6 +156,33 @@ def callers_of(prog, pred):
     return out
 
 
+def owners_of(prog, body, _seen=None, stop=None):
+    """The API-level functions a site inside `body` belongs to: `body`'s root itself when it is externally reachable
+    (pub, crate-visible method with no private-only role, trait method, derive-generated) or has no callers;
+    otherwise - a private helper - the owners of every function that calls it (transitively).  A private helper is
+    code of its callers: what it constructs or calls is constructed / called by them."""
+    root = root_body(prog, body)
+    if _seen is None:
+        _seen = set()
+    if root.id in _seen:
+        return []
+    _seen.add(root.id)
+    if stop is not None and stop(root):
+        return [root]           # a designated function: the walk ends here even if it is private
+    private_helper = root.vis != "pub" and root.desc.get("trait") is None and not root.from_expansion
+    if not private_helper:
+        return [root]
+    ups = [c for c in prog.bodies.values() for bi, tt in c.calls() if tt.get("resolved") == root.id or tt.get("callee") == root.id]
+    if not ups:
+        return [root]
+    out = []
+    for c in ups:
+        for o in owners_of(prog, c, _seen, stop):
+            if all(o.id != x.id for x in out):
+                out.append(o)
+    return out or [root]
+
+
 def entry_points_reaching(prog, pred, is_entry):
     """Who can reach a callee satisfying `pred`?  Walks callers upwards through *private* helpers (functions that
     are not `pub` and not trait methods): returns (entries, offenders) where `entries` = {body id: body} of the
